@@ -165,10 +165,7 @@ func LoadProgram(repo string) (*Program, error) {
 		byRel[fnPkg(fn).Path()+"::"+relName(fn)] = fn
 	}
 	shapes := readShapes()
-	rebound := P.rebindClosures(byRel, shapes)
-	for key, fn := range P.renamedFunctions(byRel, shapes) {
-		rebound[key] = fn
-	}
+	rebound := P.rebindClosures(byRel, shapes, P.renamedFunctions(byRel, shapes))
 	for key, fn := range rebound {
 		nameAlias[fn] = key[strings.Index(key, "::")+2:]
 	}
@@ -1091,7 +1088,7 @@ func (P *Program) modExprKeys(fn *ssa.Function, ct *Contract, e *Expr) []string 
 			if tn := P.lookupTypeName(ct.Pkg, e.Args[0].Name); tn != nil {
 				if st, ok := tn.Type().Underlying().(*types.Struct); ok {
 					for i := 0; i < st.NumFields(); i++ {
-						if st.Field(i).Name() == e.Name {
+						if fieldIs(tn.Type(), st.Field(i), e.Name) {
 							return []string{fieldKey(tn.Type(), i)}
 						}
 					}
@@ -1104,7 +1101,7 @@ func (P *Program) modExprKeys(fn *ssa.Function, ct *Contract, e *Expr) []string 
 				bt := derefType(t)
 				if st, ok := bt.Underlying().(*types.Struct); ok {
 					for i := 0; i < st.NumFields(); i++ {
-						if st.Field(i).Name() == e.Name {
+						if fieldIs(bt, st.Field(i), e.Name) {
 							return []string{fieldKey(bt, i)}
 						}
 					}
@@ -1209,7 +1206,7 @@ func (P *Program) staticTypeOf(fn *ssa.Function, e *Expr) types.Type {
 		bt = derefType(bt)
 		if st, ok := bt.Underlying().(*types.Struct); ok {
 			for i := 0; i < st.NumFields(); i++ {
-				if st.Field(i).Name() == e.Name {
+				if fieldIs(bt, st.Field(i), e.Name) {
 					return st.Field(i).Type()
 				}
 			}
